@@ -424,6 +424,8 @@ def parse_unit(path):
                 meta["properties"] = v.split()
             elif k == "prelude":
                 meta["prelude"] = v.split()
+            elif k == "uses":   # `use` lines of the generated file (default: std::collections::HashMap)
+                meta["uses"] = v.split()
             elif k == "abstraction":
                 meta["abstraction"] += (" " if meta["abstraction"] else "") + v
             elif k == "assumes":
@@ -535,7 +537,8 @@ def generate(path, outdir):
     lines = []
     lines.append(Line("#![allow(unused)]", "gen", "", 0))
     lines.append(Line("use vstd::prelude::*;", "gen", "", 0))
-    lines.append(Line("use std::collections::HashMap;", "gen", "", 0))
+    for u in (meta.get("uses") or ["std::collections::HashMap"]):
+        lines.append(Line("use %s;" % u, "gen", "", 0))
     lines.append(Line("verus! {", "gen", "", 0))
     logs = []
     pitems = []
